@@ -254,6 +254,30 @@ def dataset_stream(ex, n, exhaustive):
         for _ in range(max(20, n // 5)):
             ex.res.count('wild_files')
             yield gen.wild_dataset(ex.rng)
+        # ... and files with a REPEATED gene identifier (one id declared twice: the later declaration is the one geneRefs
+        # resolve to).  Outside every property's domain; the model follows the dictionary semantics of the code
+        # (`genes.reverse.find?`) and the mutation sweep of the model showed that nothing exercised it.
+        for _ in range(max(8, n // 40)):
+            D = std_dataset(ex.rng, no_idless=True)
+            tops_ = [i for i, g in enumerate(D.groups) if g[0] == 'og']
+            if False:
+                # (two top-level groups with one id are NOT generated: the model keeps only the later family and lists the genes
+                # of the replaced one as singletons, pyham keeps the replaced HOG reachable from its genes -- a known limit of
+                # the model outside the domain, DESIGN section 7)
+                pass
+            else:
+                decl_ = [(si, g) for si, (_, gs) in enumerate(D.species) for g, _ in gs]
+                if len(D.species) < 2 or not decl_:
+                    continue
+                si, g = ex.rng.choice(decl_)
+                sj = ex.rng.choice([x for x in range(len(D.species)) if x != si])
+                D.species[sj] = (D.species[sj][0], list(D.species[sj][1]) + [(g, [('protId', 'Pdup' + g)])])
+                if D.meta.get('style'):
+                    D.meta['style'] = dict(D.meta['style'], late_species=None)      # (every declaration precedes the groups: the model reads the whole species section first)
+                ex.res.count('wild_files_repeated_gene_id')
+            D.families = []; D.meta['wild'] = True; D.meta['repeated_ids'] = True
+            ex.res.count('wild_files')
+            yield D
     if getattr(ex, 'species_level', False):
         # secondary stream (C01 / C20 only): gene references wrapped into species-level groups (TaxRange = species name,
         # optionally with an in-paralog).  pyham dissolves such groups while loading; outside the spelled-history
@@ -288,6 +312,9 @@ def explore_load(prop, tier, seed, oracle, tags, n_quick, emit=(), with_truth=Fa
                 o.wild_problems = orc.wf_problems(h) + list(o.problems)
                 o.wild_literal = orc.wf_problems(h, literal=True) + list(o.problems)
                 o.wild_always = orc.skipped_levels_single_child(h) + orc.no_orphans(h)
+                if D.meta.get('repeated_ids'):
+                    # (repeated identifiers: no clause of any property applies; the model is the only reference)
+                    o.wild_problems = []; o.wild_literal = []; o.wild_always = []
                 ex.res.count('wild_files_loaded')
             except Exception as e:      # noqa
                 o.put('load', 'err:' + ob.err_name(e))
